@@ -174,7 +174,21 @@ func RunTrace(hdr, out string, n int, seed int64) (*TraceStats, error) {
 				k := rng.Intn(len(list))
 				if rng.Intn(3) == 0 {
 					// the update followed by a failing message in one transaction: nothing may remain of it
-					outcome, detail := en.DeliverTx(ctx, s.updateMsg(kind, list[k]), s.failingMsg())
+					var outcome, detail string
+					if rng.Intn(2) == 0 {
+						// as the message list of a real governance proposal (submit, deposit, vote, x/gov EndBlocker)
+						st.Counts["via-gov"]++
+						outcome, detail = s.govExecute(en, ctx, s.updateMsg(kind, list[k]), s.failingGovMsg())
+						if outcome == "rejected" && strings.HasPrefix(detail, "handler of a proposal message") {
+							// which message failed is not reported by x/gov: the update alone decides (tried on a branch that is dropped)
+							cctx, _ := ctx.CacheContext()
+							if o1, _, _, _ := en.Deliver(cctx, s.updateMsg(kind, list[k])); o1 == "ok" {
+								detail = "handler of message 1 (proposal)"
+							}
+						}
+					} else {
+						outcome, detail = en.DeliverTx(ctx, s.updateMsg(kind, list[k]), s.failingMsg())
+					}
 					if outcome == "rejected" && strings.HasPrefix(detail, "handler of message 1") {
 						ev = graph.M{"ev": "failedtx", "kind": kind, "i": k + 1}
 					} else if outcome == "rejected" {
@@ -184,7 +198,17 @@ func RunTrace(hdr, out string, n int, seed int64) (*TraceStats, error) {
 						break
 					}
 				} else {
-					outcome, _, _, _ := en.Deliver(ctx, s.updateMsg(kind, list[k]))
+					var outcome string
+					if rng.Intn(2) == 0 {
+						st.Counts["via-gov"]++
+						outcome, _ = s.govExecute(en, ctx, s.updateMsg(kind, list[k]))
+					} else {
+						outcome, _, _, _ = en.Deliver(ctx, s.updateMsg(kind, list[k]))
+					}
+					if outcome == "panic" {
+						st.Findings = append(st.Findings, walk.Finding{Prop: "C20", Kind: "panic", Sig: "trace.chain.update.panic", Msg: "parameter update panicked"})
+						break
+					}
 					ev = graph.M{"ev": "update", "kind": kind, "i": k + 1, "ok": outcome == "ok"}
 					if outcome == "ok" && kind == "dist" {
 						curDist = dups[k]
